@@ -444,7 +444,7 @@ func vfHttpScenario(rec *vfRec, sc map[string]any) {
 	busy, cancelAt := vfInt(sc, "busy_ms", 0), vfInt(sc, "cancel_ms", 500)
 	var ev map[string]any
 	for try := 0; try < 2; try++ {
-		ev = vfHttpOnce(id, busy, cancelAt)
+		ev = vfHttpOnce(id, busy, cancelAt, vfBool(sc, "inflight", false))
 		T := (busy + 2999) / 3000 * 3000
 		ready, ret, cancel := ev["ready"].(int), ev["ret"].(int), ev["cancel"].(int)
 		late := ret < 0 || ret > cancel+1500 || (cancel > T+2500 && (ready < 0 || ready > T+1500))
@@ -466,13 +466,28 @@ func vfHttpProbe(addr, marker string) bool {
 	return resp.Header.Get("X-Vf") == marker
 }
 
-func vfHttpOnce(id string, busy, cancelAt int) map[string]any {
+func vfHttpOnce(id string, busy, cancelAt int, inflight bool) map[string]any {
 	l0, err := net.Listen("tcp", "127.0.0.1:0")
 	if err != nil {
 		panic("vf: no loopback listener: " + err.Error())
 	}
 	addr := l0.Addr().String()
+	// "/block" is a request that is still being handled when the task is cancelled (a slow scrape): stopping does
+	// not wait for it
+	entered, unblock := make(chan struct{}, 1), make(chan struct{})
+	defer close(unblock)
 	h := http.HandlerFunc(func(w http.ResponseWriter, r *http.Request) {
+		if r.URL.Path == "/block" {
+			select {
+			case entered <- struct{}{}:
+			default:
+			}
+			select {
+			case <-unblock:
+			case <-time.After(30 * time.Second):
+			}
+			return
+		}
 		w.Header().Set("X-Vf", id)
 		w.WriteHeader(http.StatusNoContent)
 	})
@@ -496,6 +511,18 @@ func vfHttpOnce(id string, busy, cancelAt int) map[string]any {
 	case <-task.Ready():
 		ready = ms(start)
 		served = vfHttpProbe(addr, id)
+		if inflight {
+			go func() {
+				c := &http.Client{Timeout: 40 * time.Second, Transport: &http.Transport{DisableKeepAlives: true}}
+				if resp, err := c.Get("http://" + addr + "/block"); err == nil {
+					resp.Body.Close()
+				}
+			}()
+			select {
+			case <-entered:
+			case <-time.After(5 * time.Second):
+			}
+		}
 		select {
 		case <-cancelT:
 		case e := <-retC:
